@@ -50,10 +50,20 @@ const (
 	OpPlainStore
 	OpPlainLoad
 	OpSpawn
+	OpAtomicLoad // the typed / additional atomics (sync/atomic beyond LoadUint32 and StoreUint32)
+	OpAtomicStore
+	OpAtomicRMW // Add, Swap, CompareAndSwap
+	OpMapStore
+	OpMapDelete
+	OpMapClear
+	OpMapRange // one visited element of Range
+	OpBlock    // a blocking operation other than Mutex.Lock (RWMutex, WaitGroup.Wait): always a scheduling point
+	OpRelease  // its releasing counterpart (RUnlock, WaitGroup.Done, ...)
 )
 
 var opNames = [...]string{"start", "lock", "unlock", "wait", "waitwake", "signal", "broadcast", "intn",
-	"loadu32", "storeu32", "mapload", "maploadorstore", "yield", "exit", "postunlock", "trylock", "plainstore", "plainload", "spawn"}
+	"loadu32", "storeu32", "mapload", "maploadorstore", "yield", "exit", "postunlock", "trylock", "plainstore", "plainload", "spawn",
+	"atomicload", "atomicstore", "atomicrmw", "mapstore", "mapdelete", "mapclear", "maprange", "block", "release"}
 
 func (k OpKind) String() string { return opNames[k] }
 
@@ -81,6 +91,10 @@ type Step struct {
 	Ops          []Op
 	Exited       bool
 	EnabledAfter []int // threads with an enabled pending operation after the step
+	// After: where every thread stands after the step, one byte per thread: 'L' about to Lock a mutex, 'p' parked in
+	// Cond.Wait (not signalled), 'n' signalled, has not re-acquired the mutex yet, 'y' at a Yield, 'x' returned,
+	// 'b' at another blocking operation, '.' at any other operation
+	After []byte
 }
 
 // Note is a harness trace entry (vsync.Trace), with the index of the step during which it was emitted
@@ -117,11 +131,13 @@ type Outcome struct {
 	Stuck     bool // a goroutine blocked outside the shim (cannot be controlled)
 	Threads   int
 	Events    []Event // every logged operation, in execution order
+	Mode      Mode
 }
 
 type pending struct {
-	kind OpKind
-	mu   *Mutex
+	kind  OpKind
+	mu    *Mutex
+	ready func() bool // OpBlock: is the operation enabled now?
 }
 
 type thread struct {
@@ -175,7 +191,7 @@ func (s *Sched) self() *thread {
 // isPoint: does this operation hand control to the controller before executing?
 func (s *Sched) isPoint(k OpKind) bool {
 	switch k {
-	case OpLock, OpWaitWake, OpYield:
+	case OpLock, OpWaitWake, OpYield, OpBlock:
 		return true
 	}
 	return s.fine
@@ -187,11 +203,25 @@ func (s *Sched) point(k OpKind, mu *Mutex) {
 	if !s.isPoint(k) {
 		return
 	}
-	t.pend = pending{k, mu}
+	t.pend = pending{kind: k, mu: mu}
 	s.yield <- t
 	<-t.grant
 	if s.aborted {
 		runtime.Goexit()
+	}
+}
+
+// block is a scheduling point at which the thread is enabled only while ready() holds.
+func (s *Sched) block(ready func() bool) {
+	t := s.running
+	t.pend = pending{kind: OpBlock, ready: ready}
+	s.yield <- t
+	<-t.grant
+	if s.aborted {
+		runtime.Goexit()
+	}
+	if !ready() {
+		panic("vsync: blocking operation granted while not enabled")
 	}
 }
 
@@ -222,6 +252,8 @@ func (s *Sched) enabledOf(t *thread) bool {
 		return !t.pend.mu.held
 	case OpWaitWake:
 		return t.notified && !t.pend.mu.held
+	case OpBlock:
+		return t.pend.ready()
 	}
 	return true
 }
@@ -265,6 +297,29 @@ func (s *Sched) resume(t *thread) bool {
 	}
 }
 
+func (s *Sched) snapshot() []byte {
+	b := make([]byte, len(s.threads))
+	for i, t := range s.threads {
+		switch {
+		case t.done:
+			b[i] = 'x'
+		case t.pend.kind == OpLock:
+			b[i] = 'L'
+		case t.pend.kind == OpWaitWake && t.notified:
+			b[i] = 'n'
+		case t.pend.kind == OpWaitWake:
+			b[i] = 'p'
+		case t.pend.kind == OpYield:
+			b[i] = 'y'
+		case t.pend.kind == OpBlock:
+			b[i] = 'b'
+		default:
+			b[i] = '.'
+		}
+	}
+	return b
+}
+
 // Run executes the bodies as managed threads 0..len-1 (they may start more with Go) under the
 // strategy and returns what happened. fine selects the granularity.
 func Run(mode Mode, strat Strategy, maxSteps int, bodies ...func()) *Outcome {
@@ -274,7 +329,7 @@ func Run(mode Mode, strat Strategy, maxSteps int, bodies ...func()) *Outcome {
 	for _, b := range bodies {
 		s.spawn(b)
 	}
-	out := &Outcome{}
+	out := &Outcome{Mode: mode}
 	last := -1
 	stuck := false
 loop:
@@ -306,6 +361,7 @@ loop:
 		}
 		if n := len(s.steps); n > 0 {
 			s.steps[n-1].EnabledAfter = en
+			s.steps[n-1].After = s.snapshot()
 		}
 		if alive == 0 {
 			break
@@ -515,7 +571,7 @@ func (c *Cond) Wait() {
 	c.waiters = append(c.waiters, t)
 	s.logOp(Op{Kind: OpWait, Obj: m})
 	// blocked until notified and the mutex is free: always a scheduling point
-	t.pend = pending{OpWaitWake, m}
+	t.pend = pending{kind: OpWaitWake, mu: m}
 	s.yield <- t
 	<-t.grant
 	if s.aborted {
@@ -569,7 +625,10 @@ func (c *Cond) Broadcast() {
 }
 
 // Map provides the two sync.Map methods par.Cache uses.
-type Map struct{ m map[any]any }
+type Map struct {
+	m     map[any]any
+	order []any // keys in insertion order (Range is deterministic)
+}
 
 func (m *Map) Load(key any) (value any, ok bool) {
 	s := cur
@@ -594,6 +653,7 @@ func (m *Map) LoadOrStore(key, value any) (actual any, loaded bool) {
 	actual, loaded = m.m[key]
 	if !loaded {
 		m.m[key] = value
+		m.order = append(m.order, key)
 		actual = value
 	}
 	if s.self() != nil {
@@ -638,6 +698,9 @@ func Intn(n int) int {
 		return 0
 	}
 	s.point(OpIntn, nil)
+	if n > 1<<16 {
+		n = 1 << 16 // any answer below the argument is allowed; keep the option list small
+	}
 	opts := make([]int, n)
 	for i := range opts {
 		opts[i] = i
